@@ -30,34 +30,166 @@ pub struct Case {
     pub order: u8,
 }
 
+/// operand of a builder operator, kept as specific as the source shape allows so that every
+/// `impl std::ops::*` arm of the builder (Var/Expr/f64/i32/bool on either side, by value or by
+/// reference) is the one a user would hit
+enum Opd {
+    Num(f64),
+    V(Var),
+    E(Expr),
+}
+
+fn opd(e: &SExp, h: &IndexMap<String, Var>) -> Opd {
+    match e {
+        SExp::Num(v) => Opd::Num(*v),
+        SExp::Var(n) => Opd::V(h[n]),
+        other => Opd::E(to_expr(other, h)),
+    }
+}
+
+/// an f64 that is a small integer is passed as `i32` on odd positions (both overload families exist)
+fn as_i32(c: f64, flip: bool) -> Option<i32> {
+    if flip && c.fract() == 0.0 && c.abs() < 1e6 && !(c == 0.0 && c.is_sign_negative()) {
+        Some(c as i32)
+    } else {
+        None
+    }
+}
+
+macro_rules! arith {
+    ($a:expr, $b:expr, $flip:expr, $op:tt) => {
+        match ($a, $b) {
+            (Opd::Num(x), Opd::Num(y)) => Expr::from(x) $op Expr::from(y),
+            (Opd::Num(c), Opd::V(v)) => match as_i32(c, $flip) {
+                Some(i) => i $op v,
+                None => c $op v,
+            },
+            (Opd::V(v), Opd::Num(c)) => match as_i32(c, $flip) {
+                Some(i) => v $op i,
+                None => v $op c,
+            },
+            (Opd::Num(c), Opd::E(e)) => match as_i32(c, $flip) {
+                Some(i) => i $op e,
+                None => c $op e,
+            },
+            (Opd::E(e), Opd::Num(c)) => match as_i32(c, $flip) {
+                Some(i) => e $op i,
+                None => e $op c,
+            },
+            (Opd::V(v), Opd::V(w)) => v $op w,
+            (Opd::V(v), Opd::E(e)) => v $op e,
+            (Opd::E(e), Opd::V(v)) => e $op v,
+            (Opd::E(e), Opd::E(f)) => {
+                if $flip {
+                    e $op &f
+                } else {
+                    e $op f
+                }
+            }
+        }
+    };
+}
+
+macro_rules! logic {
+    ($a:expr, $b:expr, $op:tt) => {
+        match ($a, $b) {
+            (Opd::V(v), Opd::V(w)) => v $op w,
+            (Opd::V(v), Opd::E(e)) => v $op e,
+            (Opd::E(e), Opd::V(v)) => e $op v,
+            (a, b) => into_expr(a) $op into_expr(b),
+        }
+    };
+}
+
+fn into_expr(o: Opd) -> Expr {
+    match o {
+        Opd::Num(v) => Expr::from(v),
+        Opd::V(v) => Expr::from(v),
+        Opd::E(e) => e,
+    }
+}
+
+fn is_bool_literal(o: &Opd) -> Option<bool> {
+    match o {
+        Opd::Num(v) if *v == 1.0 => Some(true),
+        Opd::Num(v) if *v == 0.0 && !v.is_sign_negative() => Some(false),
+        _ => None,
+    }
+}
+
 fn to_expr(e: &SExp, h: &IndexMap<String, Var>) -> Expr {
-    let r = |x: &SExp| to_expr(x, h);
+    to_expr_at(e, h, 0)
+}
+
+/// `pos` alternates the f64 / i32 and by-value / by-reference overloads along the tree
+fn to_expr_at(e: &SExp, h: &IndexMap<String, Var>, pos: usize) -> Expr {
+    let r = |x: &SExp| to_expr_at(x, h, pos + 1);
+    let o = |x: &SExp| match x {
+        SExp::Num(_) | SExp::Var(_) => opd(x, h),
+        other => Opd::E(to_expr_at(other, h, pos + 1)),
+    };
+    let flip = pos % 2 == 1;
     match e {
         SExp::Num(v) => Expr::from(*v),
         SExp::Var(n) => Expr::from(h[n]),
-        SExp::Neg(a) => -r(a),
-        SExp::Add(a, b) => r(a) + r(b),
-        SExp::Sub(a, b) => r(a) - r(b),
-        SExp::Mul(a, b) => match (&**a, &**b) {
-            (SExp::Num(c), x) => *c * r(x),
-            (x, SExp::Num(c)) => r(x) * *c,
-            (x, y) => r(x) * r(y),
+        SExp::Neg(a) => match o(a) {
+            Opd::V(v) => -v,
+            other => -into_expr(other),
         },
-        SExp::Div(a, b) => match &**b {
-            SExp::Num(c) => r(a) / *c,
-            y => r(a) / r(y),
-        },
+        SExp::Add(a, b) => arith!(o(a), o(b), flip, +),
+        SExp::Sub(a, b) => arith!(o(a), o(b), flip, -),
+        SExp::Mul(a, b) => arith!(o(a), o(b), flip, *),
+        SExp::Div(a, b) => arith!(o(a), o(b), flip, /),
         SExp::Abs(a) => abs(r(a)),
         SExp::Min(v) => min(v.iter().map(r).collect::<Vec<_>>()),
         SExp::Max(v) => max(v.iter().map(r).collect::<Vec<_>>()),
-        SExp::Not(a) => !r(a),
-        SExp::And(v) if v.len() == 2 => r(&v[0]) & r(&v[1]),
-        SExp::Or(v) if v.len() == 2 => r(&v[0]) | r(&v[1]),
+        SExp::Not(a) => match o(a) {
+            Opd::V(v) => !v,
+            other => !into_expr(other),
+        },
+        SExp::And(v) if v.len() == 2 => {
+            let (a, b) = (o(&v[0]), o(&v[1]));
+            match (is_bool_literal(&a), is_bool_literal(&b)) {
+                (Some(t), None) => match b {
+                    Opd::V(w) => t & w,
+                    other => t & into_expr(other),
+                },
+                (None, Some(t)) => match a {
+                    Opd::V(w) => w & t,
+                    other => into_expr(other) & t,
+                },
+                _ => logic!(a, b, &),
+            }
+        }
+        SExp::Or(v) if v.len() == 2 => {
+            let (a, b) = (o(&v[0]), o(&v[1]));
+            match (is_bool_literal(&a), is_bool_literal(&b)) {
+                (Some(t), None) => match b {
+                    Opd::V(w) => t | w,
+                    other => t | into_expr(other),
+                },
+                (None, Some(t)) => match a {
+                    Opd::V(w) => w | t,
+                    other => into_expr(other) | t,
+                },
+                _ => logic!(a, b, |),
+            }
+        }
         SExp::And(v) => all(v.iter().map(r).collect::<Vec<_>>()),
         SExp::Or(v) => any_of(v.iter().map(r).collect::<Vec<_>>()),
-        SExp::Xor(a, b) => r(a) ^ r(b),
-        SExp::Implies(a, b) => r(a).implies(r(b)),
-        SExp::Iff(a, b) => r(a).iff(r(b)),
+        SExp::Xor(a, b) => logic!(o(a), o(b), ^),
+        SExp::Implies(a, b) => match (o(a), o(b)) {
+            (Opd::V(v), Opd::V(w)) => v.implies(w),
+            (Opd::V(v), other) => v.implies(into_expr(other)),
+            (x, Opd::V(w)) => into_expr(x).implies(w),
+            (x, y) => into_expr(x).implies(into_expr(y)),
+        },
+        SExp::Iff(a, b) => match (o(a), o(b)) {
+            (Opd::V(v), Opd::V(w)) => v.iff(w),
+            (Opd::V(v), other) => v.iff(into_expr(other)),
+            (x, Opd::V(w)) => into_expr(x).iff(w),
+            (x, y) => into_expr(x).iff(into_expr(y)),
+        },
     }
 }
 
